@@ -485,8 +485,32 @@ class _FuncGen:
             return
         v = self.value_of(ty, pool, out)
         out.append(["store", v, p, False])
-        k = self.draw(st.integers(0, 5))
-        if k == 0:
+        k = self.draw(st.integers(0, 8))
+        if k >= 6:
+            # a load that reads the stored location without being forwardable: through an aliasing pointer value,
+            # volatile, or with another type; then the location is overwritten
+            y = self.fresh()
+            if k == 6:
+                c1 = self.new_const("ptr", pool, out, self.pick([1, 2, 4, 8]))
+                t = self.fresh("q")
+                out.append(["binop", t, "ptr", p, "+", c1])
+                q2 = self.fresh("q")
+                out.append(["binop", q2, "ptr", t, "-", c1])
+                self.prov[q2] = self.prov.get(p) or self.mod.prov.get(p)
+                out.append(["load", y, ty, q2, False])
+                yty = ty
+            elif k == 7 and self.prof.volatile:
+                out.append(["load", y, ty, p, True])
+                yty = ty
+            else:
+                narrower = [t for t in ints if size_of(t, 64) <= s and t != ty and self.prof.allowed("mem", t)]
+                yty = self.pick(narrower) if narrower else ty
+                out.append(["load", y, yty, p, False])
+            define(y, yty)
+            out.append(["store", self.value_of(ty, pool, out), p, False])
+            if self.prof.observe:
+                self.observe(y, yty, pool, out)
+        elif k == 0:
             ty2 = self.pick([t for t in ints if size_of(t, 64) <= s])
             out.append(["store", self.value_of(ty2, pool, out), p, False])
         elif k == 1 and self.prof.copyblob:
